@@ -63,7 +63,11 @@ func rulePolicyEffect(c *Ctx, rule string) {
 			c.ob(rule, fn, "PodDelete: always release, never reserve", nil, everyPathPasses(fn, del, rel) && noneReachable(del, res), "from the policy==PodDelete edge every path to a return calls releaseIP and reserveIP is unreachable")
 			c.ob(rule, fn, "Never: never release", nil, noneReachable(never, rel), "from the policy==Never edge releaseIP is unreachable")
 			// Never: the pod's key is re-keyed to the pool prefix unless it already is the prefix
-			keyIsPrefix := guardEdges(fn, predEq(func(v ssa.Value) bool { return pathEndsWith(v, "KeyInDB") }, func(v ssa.Value) bool { return isResultOf(v, 0, "(*KeyObj).PoolPrefix") }))
+			keyIsPrefix := guardEdgesX(fn, predEq(func(v ssa.Value) bool {
+				return allActuals(v, func(x ssa.Value) bool { return pathEndsWith(x, "KeyInDB") })
+			}, func(v ssa.Value) bool {
+				return allActuals(v, func(x ssa.Value) bool { return isResultOf(x, 0, "(*KeyObj).PoolPrefix") })
+			}))
 			okN := len(never) > 0
 			for _, e := range never {
 				r := reachFromEdge(e, newCut().callInstrs(res).edge(keyIsPrefix...))
@@ -121,7 +125,7 @@ func rulePolicyEffect(c *Ctx, rule string) {
 				for _, e := range tooMany {
 					neg = append(neg, edge{e.from, 1 - e.succ})
 				}
-				c.ob(rule, fn, "Immutable: reserve only if the prefix holds no more ips than replicas", m, guardedBy(fn, m, neg), "reserveIP reachable (policy edges removed) only through the complement of `len(ByPrefix(prefix)) > replicas`")
+				c.ob(rule, fn, "Immutable: reserve only if the prefix holds no more ips than replicas", m, !reachFromEntry(fn, newCut().edge(del...).edge(never...).edge(neg...)).has(m), "reserveIP reachable (policy edges removed) only through the complement of `len(ByPrefix(prefix)) > replicas`")
 			}
 			// the replicas lookup error is not swallowed
 			for _, g := range calls(fn, "(*FloatingIPPlugin).getReplicasOfDeployment") {
@@ -210,6 +214,20 @@ func rulePolicyEffect(c *Ctx, rule string) {
 // C03.R2 — policy derivation and exhaustiveness.
 func rulePolicyDerivation(c *Ctx, rule string) {
 	if fn := c.MustFn(rule, spPkg, "parseReleasePolicy"); fn != nil {
+		// the decision may have moved into a helper that takes the annotations: judge it there, provided parseReleasePolicy
+		// returns that helper's result as it is
+		if gp := calls(fn, constPkg+".GetPool"); len(gp) > 0 && gp[0].Parent() != fn {
+			h := gp[0].Parent()
+			direct := false
+			for _, ret := range returns(fn) {
+				if call, _ := callOf(retVal(ret, 0)); call != nil && call.Call.StaticCallee() == h {
+					direct = true
+				}
+			}
+			if direct {
+				fn = h
+			}
+		}
 		pool := guardEdges(fn, predNeq(func(v ssa.Value) bool { return isResultOf(v, 0, constPkg+".GetPool") }, func(v ssa.Value) bool { s, ok := constStringVal(v); return ok && s == "" }))
 		ok := len(pool) == 1
 		if ok {
@@ -229,7 +247,13 @@ func rulePolicyDerivation(c *Ctx, rule string) {
 		// ... and nothing else is ever returned for a pool pod: a return of anything but Never is reachable only through
 		// the pool == "" edge or the no-annotations edges
 		noPool := guardEdges(fn, predEq(func(v ssa.Value) bool { return isResultOf(v, 0, constPkg+".GetPool") }, func(v ssa.Value) bool { s, ok := constStringVal(v); return ok && s == "" }))
-		noAnn := guardEdges(fn, predEq(func(v ssa.Value) bool { return sameParam(v, pAt(fn, 0)) || pathEndsWith(v, "Annotations") }, isNilConst))
+		noAnn := guardEdges(fn, predEq(func(v ssa.Value) bool {
+			if sameParam(v, pAt(fn, 0)) || pathEndsWith(v, "Annotations") {
+				return true
+			}
+			_, isParam := v.(*ssa.Parameter) // the annotations map handed to the helper
+			return isParam
+		}, isNilConst))
 		r := reachFromEntry(fn, newCut().edge(noPool...).edge(noAnn...))
 		okOnly := len(noPool) == 1
 		for _, ret := range returns(fn) {
@@ -531,4 +555,44 @@ func fieldOfStructParam(g *ssa.Function, v ssa.Value) (string, *ssa.Parameter) {
 		}
 	}
 	return "", nil
+}
+
+// throughStructParam: v is a load of field f of a struct-typed parameter of a helper with one static call site: the value
+// the caller put into field f of the struct it passed (nil when that cannot be determined)
+func throughStructParam(v ssa.Value) ssa.Value {
+	g := (*ssa.Function)(nil)
+	if in, ok := v.(ssa.Instruction); ok {
+		g = in.Parent()
+	}
+	if g == nil {
+		return nil
+	}
+	name, p := fieldOfStructParam(g, v)
+	if p == nil {
+		return nil
+	}
+	acts := actualsOf(p)
+	if len(acts) != 1 {
+		return nil
+	}
+	act := acts[0]
+	// the struct literal built in a cell of the caller and loaded for the call
+	if ld, ok := act.(*ssa.UnOp); ok {
+		if a, ok := ld.X.(*ssa.Alloc); ok {
+			var val ssa.Value
+			for _, ref := range *a.Referrers() {
+				fa, ok := ref.(*ssa.FieldAddr)
+				if !ok || fieldName(fa.X.Type(), fa.Field) != name {
+					continue
+				}
+				for _, r2 := range *fa.Referrers() {
+					if st, ok := r2.(*ssa.Store); ok && st.Addr == ssa.Value(fa) {
+						val = st.Val
+					}
+				}
+			}
+			return val
+		}
+	}
+	return nil
 }
